@@ -836,6 +836,19 @@ func buildCases(o hx.Opts, r *hx.Rand) []*kase {
 			}
 		}
 	}
+	// sibling leaf functions called only from BEGIN (the call graph has a single caller),
+	// each with a plain type error: the order of the callees of one node decides
+	for n := 2; n <= 4; n++ {
+		for first := 0; first < n-1; first++ {
+			bad := map[int]int{}
+			for i := first; i < n; i++ {
+				bad[i] = 1
+			}
+			p := kBad(n, bad, true, false)
+			p.Family = fmt.Sprintf("leaf-siblings-%d-bad-from-%d", n, first)
+			add(p)
+		}
+	}
 	for _, p := range systematic() {
 		if len(p.funcs()) <= 4 {
 			add(p)
